@@ -438,7 +438,7 @@ theorem addPathLoop_spec (ipv6 : Bool) : ∀ (fuel : Nat) (b : Bytes) (acc : Lis
             simp only [Option.map_some, List.map_cons, Option.getD_some, List.append_assoc,
               List.singleton_append, be32, Spec.n32]
 
-theorem u32_n32 (a b c d : UInt8) : Spec.u32 (Spec.n32 a b c d) = [a, b, c, d] := by
+theorem u32_n32_at (a b c d : UInt8) : Spec.u32 (Spec.n32 a b c d) = [a, b, c, d] := by
   have ha := a.toNat_lt
   have hb := b.toNat_lt
   have hc := c.toNat_lt
@@ -457,7 +457,7 @@ theorem u32_n32 (a b c d : UInt8) : Spec.u32 (Spec.n32 a b c d) = [a, b, c, d] :
   · conv => rhs; rw [← u8_ofNat_toNat d]
     apply u8_ofNat_eq_of_mod; omega
 
-theorem n32_lt (a b c d : UInt8) : Spec.n32 a b c d < 4294967296 := by
+theorem n32_lt_at (a b c d : UInt8) : Spec.n32 a b c d < 4294967296 := by
   have ha := a.toNat_lt
   have hb := b.toNat_lt
   have hc := c.toNat_lt
@@ -465,7 +465,7 @@ theorem n32_lt (a b c d : UInt8) : Spec.n32 a b c d < 4294967296 := by
   simp only [Spec.n32]
   omega
 
-theorem n32_u32 (i : Nat) (h : i < 4294967296) :
+theorem n32_u32_at (i : Nat) (h : i < 4294967296) :
     Spec.n32 (UInt8.ofNat (i / 16777216)) (UInt8.ofNat (i / 65536 % 256)) (UInt8.ofNat (i / 256 % 256))
       (UInt8.ofNat (i % 256)) = i := by
   simp only [Spec.n32, UInt8.toNat_ofNat']
@@ -526,7 +526,7 @@ theorem parsePfxs_tr (mb : Nat) (addPath : Bool) : ∀ (sfuel : Nat) (b : Bytes)
             obtain ⟨ps', hps', rfl⟩ := h
             obtain ⟨h1, h2⟩ := ih _ _ hps'
             constructor
-            · simp only [List.map_cons, List.flatten_cons, h1, Spec.pfxWire, u8_ofNat_toNat, u32_n32,
+            · simp only [List.map_cons, List.flatten_cons, h1, Spec.pfxWire, u8_ofNat_toNat, u32_n32_at,
                 List.nil_append, List.cons_append, List.take_append_drop]
             · intro p hp
               rcases List.mem_cons.mp hp with rfl | hp
@@ -536,7 +536,7 @@ theorem parsePfxs_tr (mb : Nat) (addPath : Bool) : ∀ (sfuel : Nat) (b : Bytes)
                 · intro i hi
                   simp only [Option.some.injEq] at hi
                   subst hi
-                  exact n32_lt _ _ _ _
+                  exact n32_lt_at _ _ _ _
               · exact h2 p hp
 
 theorem parsePfxs_rt (mb : Nat) (hmb : mb ≤ 128) (addPath : Bool) : ∀ (ps : List Spec.Pfx) (sfuel : Nat),
@@ -574,7 +574,7 @@ theorem parsePfxs_rt (mb : Nat) (hmb : mb ≤ 128) (addPath : Bool) : ∀ (ps : 
         List.length_cons, List.length_append] at hs ⊢
       match sfuel, hs with
       | sfuel + 1, hs =>
-        simp only [Spec.parsePfxs, if_true, hbits, n32_u32 i hi]
+        simp only [Spec.parsePfxs, if_true, hbits, n32_u32_at i hi]
         rw [if_neg (by simp only [List.length_append]; omega)]
         rw [← ha, List.drop_left, List.take_left, ih sfuel hwf' (by omega)]
         rfl
